@@ -29,7 +29,7 @@ GOENV.update({
 TRUSTED_BASE = [
     "Coq 8.16.1 kernel (coqc; vm_compute used for witnesses and regenerated-skeleton obligations; native_compute not used)",
     "axioms: none declared; per-theorem Print Assumptions output recorded under coverage.assumptions_reported",
-    "extraction: ExtrOcamlBasic only (Extract Inductive bool/option/unit/list/prod/sumbool/sumor as declared there), no Extract Constant; OCaml 4.13.1; ocaml/driver.ml parser+printer",
+    "extraction: ExtrOcamlBasic only (Extract Inductive bool/option/unit/list/prod/sumbool/sumor as declared there), no Extract Constant; OCaml 4.13.1; OCaml glue ocaml/{conv,cmds,driver,engine_run,sloop_run}.ml: case parser, printers, resolution of relative operations to concrete moves, derived observables (slack), canonical schedule of the parallel LTS",
     "Go harness /verif/harness built with -tags verif against /repo working tree; Python generators, differ and projection in /verif/lib",
     "translator /verif/translator (go/ast) for regenerated skeleton/table obligations",
 ]
